@@ -173,7 +173,10 @@ class Engine(
 
     def transfer(self, target: Relation, payload: Any | None = None) -> Select:
         # Docstring inherited.
-        return Select.apply_skip(super().transfer(target, payload))
+        # The base class returns the target itself (or an upstream relation)
+        # when the transfer simplifies away; that is already a conformed
+        # Select and must be returned as-is, not wrapped in a new one.
+        return self.conform(super().transfer(target, payload))
 
     def make_doomed_relation(
         self, columns: Set[ColumnTag], messages: Sequence[str], name: str = "0"
